@@ -227,9 +227,10 @@ def _trace_job(seeds):
             items.append((a, kind, embed(kind, text(a))))
         p = repo.Probe([f for _, _, f in items], CONSTS, timeout=120)
         out = []
+        ev = p.session().eval if seeds and (seeds[0] // 40) % 2 else p.eval       # half of the batches: ONE Executor for all environments in turn
         for e, env in enumerate(ENVS):
-            if e % 2 == seeds[0] % 2:
-                res = p.eval(env_overrides(env))
+            if e % 2 == (seeds[0] // 20) % 2:
+                res = ev(env_overrides(env))
                 for (a, kind, f), r in zip(items, res):
                     out.append({'ast': a, 'env': list(env), 'emb': kind, 'obs': obs_of(*r), 'formula': f})
         return out
